@@ -186,6 +186,10 @@ def _template_text_of_call(fn: Function, c: ast.Call) -> Optional[str]:
 
 def _registrations(fn: Function, cfg: CFG) -> Dict[str, Set[int]]:
     """symbol -> CFG nodes that register its import."""
+    from rules._imports import import_names, registration_nodes
+    from sa.match import Locals
+
+    L = Locals(fn.node)
     out: Dict[str, Set[int]] = {}
     for n in cfg.nodes:
         if n.kind != "stmt" or n.ast is None:
@@ -193,10 +197,9 @@ def _registrations(fn: Function, cfg: CFG) -> Dict[str, Set[int]]:
         for c in calls_in(n.ast):
             if not isinstance(c.func, ast.Attribute):
                 continue
-            if c.func.attr == "add_import" and len(c.args) >= 2 and const_str(c.args[1]):
-                out.setdefault(const_str(c.args[1]) or "", set()).add(n.id)
-            elif c.func.attr == "add_plain_import" and c.args and const_str(c.args[0]):
-                out.setdefault(const_str(c.args[0]) or "", set()).add(n.id)
+            if c.func.attr in ("add_import", "add_plain_import", "add_conditional_import"):
+                for nm in import_names(c, L):
+                    out.setdefault(nm, set()).update(registration_nodes(cfg, n, c))
             elif c.func.attr in REGISTERING_HELPERS:
                 out.setdefault(REGISTERING_HELPERS[c.func.attr], set()).add(n.id)
             elif c.func.attr == "add_typing_imports_for_type":
